@@ -8,23 +8,23 @@ var propText = map[string][2]string{
 		"printed values (strconv/fmt formatting), the per-type operator tables of the evaluator (that case \"+\" is Go's +), that redundant parentheses never change a value, literal conversion ranges.",
 	},
 	"C02": {
-		"the truthiness table extracted from isTruthy equals the table of C02 row by row; @if/@elseif/ternary/@breakIf/@continueIf/@for branch on isTruthy of their evaluated condition and on nothing else; each branch evaluation is control-dependent on the truthiness of its own condition after the error check; @elseif branches are an ascending range; a chosen branch is returned at once so no later condition is evaluated; @else only after every condition was falsy; the @else/@elseif keyword pair is told apart (constant evaluation of the lexer predicate); statement results are concatenated in order without filtering.",
+		"the truthiness table extracted from isTruthy equals the table of C02 row by row; @if/@elseif/ternary/@breakIf/@continueIf/@for branch on isTruthy of their evaluated condition and on nothing else; each branch evaluation is control-dependent on the truthiness of its own condition after the error check; @elseif branches are an ascending range; a chosen branch is returned at once so no later condition is evaluated; @else only after every condition was falsy; the @else/@elseif keyword pair is told apart (constant evaluation of the lexer predicate); statement results are concatenated in order without filtering. Every result of e.Eval is returned or tested with isError before any other use (R-EVALERR). In parseBlockStmt the step to the next statement is never taken when the next token is @else/@elseif/@end (case evaluation of the peek tests made after the statement was parsed).",
 		"output equality over all nestings; that the parser attaches each body to the right branch beyond appending alternatives in source order.",
 	},
 	"C03": {
-		"in evalEachStmt/evalForStmt the break test follows the body evaluation on every path to the next pass, its true edge leaves the loop and the pass's output is written before it; @each is an ascending range over the evaluated array's elements, binds the element through Env.Set, and builds the loop object exactly as {index: i, iter: i+1, first: i==0, last: i==n-1} (linear normal forms); @else only for an empty array / a condition false at entry; @for evaluates condition, body, post in that order and leaves on a falsy condition; loop evaluators return rendered text while @else bodies return the evaluated block; evalBlockStmt stops after the first break/continue object and hasControlStmt looks inside nested blocks; optional @for clauses are nil-tested and operands type-tested; loop bodies run in a fresh scope on which the loop object is bound.",
+		"in evalEachStmt/evalForStmt the break test follows the body evaluation on every path to the next pass, its true edge leaves the loop and the pass's output is written before it; @each is an ascending range over the evaluated array's elements, binds the element through Env.Set, and builds the loop object exactly as {index: i, iter: i+1, first: i==0, last: i==n-1} (linear normal forms); @else only for an empty array / a condition false at entry; @for evaluates condition, body, post in that order and leaves on a falsy condition; loop evaluators return rendered text while @else bodies return the evaluated block; evalBlockStmt stops after the first break/continue object and hasControlStmt looks inside nested blocks; optional @for clauses are nil-tested and operands type-tested; loop bodies run in a fresh scope on which the loop object is bound. evalBlockStmt is case-evaluated on abstract blocks of three statements (the marker itself / inside a block / inside a nested block, produced by every statement type): the third statement is not evaluated and the first two results are kept. Every Eval result is returned or error-tested before use (R-EVALERR).",
 		"the rendered text for all lengths and positions (values); the semantics of assigning the post clause's value to the init variable.",
 	},
 	"C04": {
-		"every nested block (@if branches, loop bodies and @else bodies, component block) is evaluated in NewEnclosedEnv of the incoming scope; only NewEnv, Set and SetLoopVar write a scope's store and only the receiver's own; Set's store is dominated by the reserved-name test and by the type test, which consults the whole chain through Get; Get falls back to the enclosing scope exactly when the name is absent; the loop object is bound on the loop's own scope; data is bound through Set; no error result of Set (or any other error-typed result in evaluator/object code on the render path) is discarded.",
+		"every nested block (@if branches, loop bodies and @else bodies, component block) is evaluated in NewEnclosedEnv of the incoming scope; only NewEnv, Set and SetLoopVar write a scope's store and only the receiver's own; Set's store is dominated by the reserved-name test and by the type test, which consults the whole chain through Get; Get falls back to the enclosing scope exactly when the name is absent; the loop object is bound on the loop's own scope; data is bound through Set; no error result of Set (or any other error-typed result in evaluator/object code on the render path) is discarded. Env.Get and Env.Set are case-evaluated on abstract chains of three scopes: the innermost binding wins, bindings two scopes out are visible, the name loop is refused, a visible variable of another type (at any distance) is refused, absent/nil/same-typed variables are bound in the innermost scope only.",
 		"the for-all over assignment/read interleavings themselves (values); insert and slot bodies, which C04 does not list as blocks.",
 	},
 	"C05": {
-		"every call in NextToken that can build a code-alphabet token is dominated by !isHTML; the text scanner writes each byte before consuming it, removes exactly one byte and only under the escape flags, and the escape test reads input[pos-1]; the text literal flows unchanged through NextToken, parseHTMLStmt, HTMLStmt.String, object.HTML and evalProgram; a comment is terminated only at the constant --}} and an unterminated one is an error; keyword prefix pairs are disambiguated; index/slice/Truncate operands in the lexer are in range.",
+		"every call in NextToken that can build a code-alphabet token is dominated by !isHTML; the text scanner writes each byte before consuming it, removes exactly one byte and only under the escape flags, and the escape test reads input[pos-1]; the text literal flows unchanged through NextToken, parseHTMLStmt, HTMLStmt.String, object.HTML and evalProgram; a comment is terminated only at the constant --}} and an unterminated one is an error; keyword prefix pairs are disambiguated; index/slice/Truncate operands in the lexer are in range. directiveToken is case-evaluated for every directive and next character '(' / other: the lexer enters code mode exactly for directives that take arguments (bare: @else @end @break @continue; optional: @slot). Block.String, evalProgram and evalBlockStmt are case-evaluated on three abstract elements: the output is their texts in order.",
 		"byte-for-byte equality over all strings: the interaction of the mode counters (countCurlyBraces, countDirectiveParentheses) with arbitrary input is a runtime quantity; this is the property with the smallest decided share.",
 	},
 	"C06": {
-		"the undefined-insert check precedes linking and its error is returned; each reserve is linked to the insert looked up under the reserve's own name; every insert registration is dominated by the duplicate check, which records an error; ApplyLayout replaces the page's statements by the single use statement; the layout is marked and linked before being applied and linking errors are returned; a layout that uses a layout is rejected; insert blocks/expressions are evaluated with the call's environment; an unfilled reserve yields NIL; reserves are registered by name wherever they nest; ~ expands to layouts/ (components/) only as first character; load errors are not dropped.",
+		"the undefined-insert check precedes linking and its error is returned; each reserve is linked to the insert looked up under the reserve's own name; every insert registration is dominated by the duplicate check, which records an error; ApplyLayout replaces the page's statements by the single use statement; the layout is marked and linked before being applied and linking errors are returned; a layout that uses a layout is rejected; insert blocks/expressions are evaluated with the call's environment; an unfilled reserve yields NIL; reserves are registered by name wherever they nest; ~ expands to layouts/ (components/) only as first character; load errors are not dropped. No package-level state other than the configuration and the mode flag is written by NewTemplate and read by a later load (effect summaries, history mode).",
 		"output equality of layout plus inserts over all trees; distinctness of reserve names (a precondition).",
 	},
 	"C07": {
@@ -32,11 +32,11 @@ var propText = map[string][2]string{
 		"rendering equality; slots nested inside blocks of the component file; nested components.",
 	},
 	"C08": {
-		"every lexer and parser loop consumes input on each pass and leaves in the end-of-input state and on every sticky token (abstract evaluation with curToken = peekToken = EOF / ILLEGAL, resp. l.char = 0); every recursion cycle contains a consuming call; nextToken pulls exactly one token; every \"(\", block, {{, [, {, ?, string and comment opener is followed on all paths to a successful return by a point that requires its closer, so truncated templates end in a recorded error; unterminated strings/comments become ILLEGAL tokens.",
+		"every lexer and parser loop consumes input on each pass and leaves in the end-of-input state and on every sticky token (abstract evaluation with curToken = peekToken = EOF / ILLEGAL, resp. l.char = 0); every recursion cycle contains a consuming call; nextToken pulls exactly one token; every \"(\", block, {{, [, {, ?, string and comment opener is followed on all paths to a successful return by a point that requires its closer, so truncated templates end in a recorded error; unterminated strings/comments become ILLEGAL tokens. A nil parse result always means an error was recorded (greatest fixpoint over the parser functions, through helpers and (value, ok) results). The token for an unknown character is built without consuming it (the parser's only ILLEGAL check is at statement starts).",
 		"stack exhaustion on pathologically deep nesting; total running time; stickiness of tokens whose constructor may consume zero bytes is only decided for constructors that call nothing consuming.",
 	},
 	"C09": {
-		"over all functions reachable from the render entry points: every unchecked type assertion is justified (dominating kind test, dispatch-table invariant, AST-field stored-type invariant, caller-established); every use of a nilable AST field is nil-tested; integer / and % are guarded; every index, slice, make, strings.Repeat and Buffer.Truncate operand is proven in range by a linear-arithmetic entailment from dominating comparisons (trusted sub-obligations are listed individually); nil Object producers are checked by every consumer; reflect Elem().Interface() and Field(i).Interface() are guarded; no panic/log.Fatal/os.Exit is reachable.",
+		"over all functions reachable from the render entry points: every unchecked type assertion is justified (dominating kind test, dispatch-table invariant, AST-field stored-type invariant, caller-established); every use of a nilable AST field is nil-tested; integer / and % are guarded; every index, slice, make, strings.Repeat and Buffer.Truncate operand is proven in range by a linear-arithmetic entailment from dominating comparisons (trusted sub-obligations are listed individually); nil Object producers are checked by every consumer; reflect Elem().Interface() and Field(i).Interface() are guarded; no panic/log.Fatal/os.Exit is reachable. reflect.Value methods whose panics depend on the shape of the data (FieldByIndex, FieldByName, Call, Convert, Slice, ...) are not used on data.",
 		"panics outside these classes (out of memory from a huge repeat), stack overflow, panics inside user-supplied custom functions; integer overflow is not modelled.",
 	},
 	"C10": {
@@ -48,11 +48,11 @@ var propText = map[string][2]string{
 		"the value contracts (what round, decimal, contains, slice clamping, join return for each argument tuple): numerical/structural results over runtime values are out of reach for this family and are not claimed.",
 	},
 	"C12": {
-		"NativeToObject has a case for each of the 14 scalar Go types and nil, producing the object kind C12 names with the value as payload; reflect kinds Struct, Slice, Map, Pointer are handled and every other kind yields nil, which every caller checks at every nesting level; nil pointers are tested before Elem(); map keys are used only after the String-kind test; struct fields only under IsExported; no reflect setter anywhere in the library and no write reaches the caller's data map; property lookup tries the exact key, then the upper-cased first letter, then errors.",
+		"NativeToObject has a case for each of the 14 scalar Go types and nil, producing the object kind C12 names with the value as payload; reflect kinds Struct, Slice, Map, Pointer are handled and every other kind yields nil, which every caller checks at every nesting level; nil pointers are tested before Elem(); map keys are used only after the String-kind test; struct fields only under IsExported; no reflect setter anywhere in the library and no write reaches the caller's data map; property lookup tries the exact key, then the upper-cased first letter, then errors. No reflect address accessor (Pointer, UnsafePointer, UnsafeAddr, Addr) is reachable from NativeToObject: conversion is by value.",
 		"that printed numbers equal the Go literal (formatting); shapes for all run-time constructed types; values outside the int64 range.",
 	},
 	"C13": {
-		"all 34 ast.Node.Line() methods return ErrorLine() of their own token and ErrorLine is EndLine+1; every AST node the parser builds takes its Token from the parser's current token; every parser.newError call passes ErrorLine() of a token; parser errors carry the parsed file's absolute path, evaluator errors node.Line() and the template's absolute path; loader errors about components and inserts carry that construct's line; the line counters are written in one place and every token takes its end from the last consumed byte.",
+		"all 34 ast.Node.Line() methods return ErrorLine() of their own token and ErrorLine is EndLine+1; every AST node the parser builds takes its Token from the parser's current token; every parser.newError call passes ErrorLine() of a token; parser errors carry the parsed file's absolute path, evaluator errors node.Line() and the template's absolute path; loader errors about components and inserts carry that construct's line; the line counters are written in one place and every token takes its end from the last consumed byte. The function that computes a loaded template's path reads no package-level state but the configuration (not the mode flag the string API resets).",
 		"that the counters equal the true line for all inputs (CRLF, multi-line tokens): per-character arithmetic over runtime input.",
 	},
 	"C14": {
@@ -68,11 +68,11 @@ var propText = map[string][2]string{
 		"equality of results along concrete histories.",
 	},
 	"C17": {
-		"the ResponseWriter flows only to Fprint-style calls in Response and its helper and never to the renderer; each write is dominated by the nil-error edge of the render whose result it writes; no write can follow another; nil is returned exactly on the success path and a value non-nil by construction on every failure path; the custom page is chosen exactly under ErrorPagePath != \"\" && !DebugMode and rendered with nil data; the built-in page receives debugMode from the configuration and its embedded template mentions message, path and line only inside the true branch of @if(debugMode).",
+		"the ResponseWriter flows only to Fprint-style calls in Response and its helper and never to the renderer; each write is dominated by the nil-error edge of the render whose result it writes; no write can follow another; nil is returned exactly on the success path and a value non-nil by construction on every failure path; the custom page is chosen exactly under ErrorPagePath != \"\" && !DebugMode and rendered with nil data; the built-in page receives debugMode from the configuration and its embedded template mentions message, path and line only inside the true branch of @if(debugMode). Response is case-evaluated on all 32 combinations of {render ok, ErrorPagePath set, DebugMode, custom page ok, built-in page ok}: body and result are exactly as specified, at most one body, nil data for the custom page. Every Eval result is returned or error-tested before use, so a failing sub-expression fails the render instead of being printed. Response leaves no package-level state that a later Response reads.",
 		"that a user-written custom error page leaks nothing; HTTP status codes.",
 	},
 	"C18": {
-		"the extension is only tested/removed as a suffix and the directory only joined, walked, normalised or relativised; a file is registered only under HasSuffix(path, ext) and !IsDir; names are filepath.Rel + TrimSuffix; NewTemplate pairs every error with a nil Template; layouts are not registered; unknown names end in template-not-found; EvaluateFile passes the unmodified content to EvaluateString; loader errors are propagated; the lexer/parser/loader code reached while loading satisfies the termination, delimiter, bounds, assertion and panic rules.",
+		"the extension is only tested/removed as a suffix and the directory only joined, walked, normalised or relativised; a file is registered only under HasSuffix(path, ext) and !IsDir; names are filepath.Rel + TrimSuffix; NewTemplate pairs every error with a nil Template; layouts are not registered; unknown names end in template-not-found; EvaluateFile passes the unmodified content to EvaluateString; loader errors are propagated; the lexer/parser/loader code reached while loading satisfies the termination, delimiter, bounds, assertion and panic rules. In the loader functions every path entered under a non-nil error ends in a return carrying an error (no continue, no fall-through).",
 		"the file-system fault enumeration (deleted/truncated/symlink): behaviour of os/filepath under faults is runtime; only propagation of every returned error is decided.",
 	},
 	"C19": {
@@ -80,7 +80,7 @@ var propText = map[string][2]string{
 		"that tokens tile the source and that columns are byte columns for all inputs: arithmetic in readChar over runtime bytes is not claimed.",
 	},
 	"C20": {
-		"each Register*Func stores into its own table only on the miss edge of a lookup of the same map and key and returns a non-nil error on the hit edge; no other code writes, replaces or clears a table (so operation sequences cannot lose a registration); custom functions are consulted only after the builtin lookup missed; hasCustomFunc and evalCallExp use the table of the receiver's kind for all five kinds; arguments go through Val() (payload for scalars, recursive for containers), results through NativeToObject with a nil check; the fall-through error names function and type.",
+		"each Register*Func stores into its own table only on the miss edge of a lookup of the same map and key and returns a non-nil error on the hit edge; no other code writes, replaces or clears a table (so operation sequences cannot lose a registration); custom functions are consulted only after the builtin lookup missed; hasCustomFunc and evalCallExp use the table of the receiver's kind for all five kinds; arguments go through Val() (payload for scalars, recursive for containers), results through NativeToObject with a nil check; the fall-through error names function and type. Container Val() methods are case-evaluated (three elements give exactly their three Val() results) and write nothing that outlives the call; on every path from a custom-function call to a return its result goes through NativeToObject or into a fresh object.",
 		"value round-trips for all nested arguments; behaviour of the user's function itself.",
 	},
 }
